@@ -22,7 +22,7 @@ NONTRIVIAL = ['roundtrip:ok-or-reported', 'parse:denoting-accepted', 'parse:deno
 
 
 def _build(ctx):
-    return seq.build(ctx, 'tests/testRock', ['C35_date.cc'], tree_sources=['time/rfc1123.cc'],
+    return seq.build(ctx, 'tests/testMath', ['C35_date.cc'], tree_sources=['time/rfc1123.cc'],
                      tree_flags=['-fsanitize=undefined', '-fno-sanitize-recover=undefined'], ubsan=True)
 
 
@@ -39,6 +39,8 @@ def run(ctx):
         want = days * (4 if ctx.quick else 72) + 86400 * (3 if ctx.quick else 16)
         if cov['round_trips'] != want:
             raise HarnessError('round-trip count %d != expected %d' % (cov['round_trips'], want))
+    if m['deadline_hit']:
+        return Result(LEVEL, cov, viol, ASSUME)
     # vacuity: the parser part must have seen accepted, correctly denoting strings in every form, and rejections
     for k, least in (('accepted_imf', 500), ('accepted_rfc850', 300), ('accepted_asctime', 500)):
         if c.get(k, 0) < least and not viol:
